@@ -52,3 +52,34 @@ Print Assumptions c20_failed_reload.
 Example c20_unlocked_validate_rejected :
   all_well_locked [[ELock; EFieldWrite 0; EUnlock; EReturn]; [EFieldRead 0; EMapRead 0; EReturn]] = false.
 Proof. vm_compute. reflexivity. Qed.
+
+(* ---- "once a reload has completed every later validation reflects the new contents" needs the
+   reloads themselves to be ordered (Model/ReloadOrder.v): the watcher runs the reload callback
+   inside its single event loop, so a reload's read of the file and its publication are not
+   interleaved with another reload's.  For every trace of file writes, reads and publications that
+   such a loop can produce: once a reload that read the file after the last write has published,
+   the published contents are the file's contents.  With a goroutine per reload this fails
+   (the reload that read first may publish last). *)
+From Coq Require Import ZArith.
+From V.Model Require Import ReloadOrder.
+From V.Proofs Require Import ReloadOrderProofs.
+
+Theorem c20_serial_reloads_publish_final : forall s0 pre j post s',
+  rrun s0 (pre ++ RRead j :: post) = Some s' ->
+  forallb (fun e => negb (is_write e)) post = true ->
+  In (RPublish j) post ->
+  r_pub s' = r_file s'.
+Proof. exact serial_reloads_publish_final. Qed.
+Print Assumptions c20_serial_reloads_publish_final.
+
+Theorem c20_overlapping_reloads_refuted :
+  rrun_overlapping 0 0 [] [RWrite 1; RRead 1; RWrite 2; RRead 2; RPublish 2; RPublish 1] = (2%Z, 1%Z).
+Proof. exact overlapping_reloads_publish_stale. Qed.
+Print Assumptions c20_overlapping_reloads_refuted.
+
+(* the premise, on the source as it is now: every call of the reload callback in
+   pkg/watcher/watcher.go (regenerated) sits in the event loop, none in a goroutine of its own *)
+Theorem c20_watcher_serial :
+  watcher_action_calls <> [] /\ forallb (fun p => negb (snd p)) watcher_action_calls = true.
+Proof. split; [discriminate|vm_compute; reflexivity]. Qed.
+Print Assumptions c20_watcher_serial.
